@@ -241,6 +241,17 @@ def _run_history(ops, record, j, m, path):
                 got = j.recover_messages(_S(ms["key"]), d, str(lo) if spell[0] == "s" else lo, str(hi) if spell[1] == "s" else hi)
                 if spell != "ii":
                     classes.add("range-str-bounds")
+                if isinstance(got, list) and got and (len(o) + lo + hi) % 3 == 0:
+                    # the caller edits the list it was handed (filters it in place) and asks again: a stored message is
+                    # returned by EVERY range query that includes its number
+                    keep = list(got)
+                    got.clear()
+                    again = j.recover_messages(_S(ms["key"]), d, str(lo) if spell[0] == "s" else lo, str(hi) if spell[1] == "s" else hi)
+                    classes.add("result-edited-then-requeried")
+                    if again != keep:
+                        fail("range/result-after-caller-edit", f"recover_messages({lo},{hi}) after the caller cleared the previous result: got {again!r} expected {keep!r}")
+                        return classes
+                    got = keep
                 exp = [b for n, b in m.rows_of(ms["key"], d) if lo <= n <= hi]
                 if got != exp:
                     fail("range/result", f"recover_messages({lo},{hi}) session={ms['key']} {dn}: got {got!r} expected {exp!r}")
